@@ -556,12 +556,25 @@ func (p *c18Peer) sendInitialWindow(w int64) bool {
 	p.settingsChanges++
 	p.logf("send SETTINGS INITIAL_WINDOW_SIZE=%d (was %d)", w, p.wCur)
 	cur := p.wCur
-	p.mu.Unlock()
-	decoy := w
-	if cur < decoy {
-		decoy = cur
+	// the decoy: a little ABOVE the new value when no stream window can pass 2^31-1 on the way (an implementation that keeps the
+	// first of two equal identifiers then overruns the real window), otherwise below both endpoints of the change
+	decoy := w + 1000
+	for _, st := range p.streams {
+		if st.known && cur+st.U-st.recv+(decoy-cur) > c18MaxWindow {
+			decoy = -1
+		}
 	}
-	decoy /= 2
+	if decoy > c18MaxWindow {
+		decoy = -1
+	}
+	p.mu.Unlock()
+	if decoy < 0 {
+		decoy = w
+		if cur < decoy {
+			decoy = cur
+		}
+		decoy /= 2
+	}
 	p.writeFrame(func() error {
 		if p.dupSettings() {
 			// the same identifier twice in one frame: settings are processed in the order they appear, the last value stands (RFC 7540 6.5.3)
@@ -946,11 +959,11 @@ func (p *c18Peer) handshake() bool {
 	p.mu.Unlock()
 	err := p.writeFrame(func() error {
 		if p.dupSettings() {
-			d0 := p.cs.W0
-			if d0 > 65535 {
-				d0 = 65535
+			d0 := p.cs.W0 + 1000 // no stream exists yet: nothing can overflow on the way
+			if d0 > c18MaxWindow {
+				d0 = p.cs.W0 / 2
 			}
-			return p.fr.WriteSettings(xh2.Setting{ID: xh2.SettingInitialWindowSize, Val: uint32(d0 / 2)}, xh2.Setting{ID: xh2.SettingMaxFrameSize, Val: 1 << 20},
+			return p.fr.WriteSettings(xh2.Setting{ID: xh2.SettingInitialWindowSize, Val: uint32(d0)}, xh2.Setting{ID: xh2.SettingMaxFrameSize, Val: 1 << 20},
 				xh2.Setting{ID: xh2.SettingInitialWindowSize, Val: uint32(p.cs.W0)}, xh2.Setting{ID: xh2.SettingMaxFrameSize, Val: p.cs.MaxFrame})
 		}
 		return p.fr.WriteSettings(xh2.Setting{ID: xh2.SettingInitialWindowSize, Val: uint32(p.cs.W0)}, xh2.Setting{ID: xh2.SettingMaxFrameSize, Val: p.cs.MaxFrame})
